@@ -105,7 +105,7 @@ func runVLCase(c VLCase) (fail string, sessions []VLSession, stats map[string]in
 	var model *VLModel
 	var modelEvs []Event
 	// check compares what the real layer sent so far with the protocol env_ok and with the model of the version layer
-	check := func(vl *leveldb.VerifVersionLayer, upto int, what string, final bool) string {
+	check0 := func(vl *leveldb.VerifVersionLayer, upto int, what string, final bool) (string, []Event) {
 		env := NewEnv()
 		log := vl.Log()
 		var closing []leveldb.VerifVLEvent
@@ -123,7 +123,10 @@ func runVLCase(c VLCase) (fail string, sessions []VLSession, stats map[string]in
 			ev := vlEvent(e)
 			evs = append(evs, ev)
 			if model.Disc && !env.Step(ev) {
-				return fmt.Sprintf("%s: the version layer sent event %d %s, which the protocol env_ok does not allow after %v", what, i, ev, tailEvents(evs, 6))
+				for _, e2 := range log[i+1:] {
+					evs = append(evs, vlEvent(e2))
+				}
+				return fmt.Sprintf("%s: the version layer sent event %d %s, which the protocol env_ok does not allow after %v", what, i, ev, tailEvents(evs[:i+1], 6)), evs
 			}
 		}
 		for i := 0; i < len(evs) || i < len(modelEvs); i++ {
@@ -131,32 +134,38 @@ func runVLCase(c VLCase) (fail string, sessions []VLSession, stats map[string]in
 				if !final {
 					break // the recorder may lag by an event
 				}
-				return fmt.Sprintf("%s: the model of the version layer sends event %d %s, the real layer sent nothing more (after %v)", what, i, modelEvs[i], tailEvents(modelEvs[:i+1], 6))
+				return fmt.Sprintf("%s: the model of the version layer sends event %d %s, the real layer sent nothing more (after %v)", what, i, modelEvs[i], tailEvents(modelEvs[:i+1], 6)), evs
 			}
 			if i >= len(modelEvs) {
-				return fmt.Sprintf("%s: the real version layer sent event %d %s, the model sends nothing more (after %v)", what, i, evs[i], tailEvents(evs[:i+1], 6))
+				return fmt.Sprintf("%s: the real version layer sent event %d %s, the model sends nothing more (after %v)", what, i, evs[i], tailEvents(evs[:i+1], 6)), evs
 			}
 			if !eventsEqual(evs[i], modelEvs[i]) {
-				return fmt.Sprintf("%s: event %d of the real version layer is %s, the model of the version layer says %s (after %v)", what, i, evs[i], modelEvs[i], tailEvents(evs[:i+1], 6))
+				return fmt.Sprintf("%s: event %d of the real version layer is %s, the model of the version layer says %s (after %v)", what, i, evs[i], modelEvs[i], tailEvents(evs[:i+1], 6)), evs
 			}
 		}
 		if final {
 			want := []Event{{Kind: EvRef, Vid: model.nvid}, evRel(model.cur)}
 			if len(closing) != len(want) {
-				return fmt.Sprintf("%s: session.close sent %d events, expected the closing version's reference and the release of version %d", what, len(closing), model.cur.id)
+				return fmt.Sprintf("%s: session.close sent %d events, expected the closing version's reference and the release of version %d", what, len(closing), model.cur.id), evs
 			}
 			for i := range want {
 				if ev := vlEvent(closing[i]); !eventsEqual(ev, want[i]) {
-					return fmt.Sprintf("%s: session.close sent %s, expected %s", what, ev, want[i])
+					return fmt.Sprintf("%s: session.close sent %s, expected %s", what, ev, want[i]), evs
 				}
 			}
 		}
-		if final {
+		return "", evs
+	}
+	// a session is handed on (to the KVL cases) when it ends, and also when something is wrong with it, so that
+	// the Coq model judges the same observation
+	check := func(vl *leveldb.VerifVersionLayer, upto int, what string, final bool) string {
+		d, evs := check0(vl, upto, what, final)
+		if final || d != "" {
 			cur.Events = evs
 			cur.Disc = model.Disc
 			sessions = append(sessions, cur)
 		}
-		return ""
+		return d
 	}
 	vl, err := leveldb.VerifNewVersionLayer(stor, o)
 	if err != nil {
@@ -327,6 +336,14 @@ func runVLCase(c VLCase) (fail string, sessions []VLSession, stats map[string]in
 			}
 		}
 		if d != "" {
+			if d2 := check(vl, -1, what, false); d2 == "" { // hand the session on as observed so far
+				cur.Events = nil
+				for _, e := range vl.Log() {
+					cur.Events = append(cur.Events, vlEvent(e))
+				}
+				cur.Disc = model.Disc
+				sessions = append(sessions, cur)
+			}
 			return d, sessions, stats
 		}
 		if i%16 == 15 {
